@@ -42,6 +42,7 @@ type Solver struct {
 	errors    []string
 	lastSat   bool
 	nsync     int
+	dead      bool
 }
 
 func NewSolver(kind string, ts *TermStore, timeoutMs int) (*Solver, error) {
@@ -53,6 +54,9 @@ func NewSolver(kind string, ts *TermStore, timeoutMs int) (*Solver, error) {
 		cmd = exec.Command("z3-new", "-in", "-smt2")
 	case "cvc5":
 		cmd = exec.Command("cvc5", "--incremental", "--produce-models", "--lang=smt2", fmt.Sprintf("--tlimit-per=%d", timeoutMs))
+	case "cvc5-minisat":
+		cmd = exec.Command("cvc5", "--incremental", "--produce-models", "--lang=smt2", "--bv-sat-solver=minisat", fmt.Sprintf("--tlimit-per=%d", timeoutMs))
+		kind = "cvc5"
 	default:
 		return nil, fmt.Errorf("unknown solver %q", kind)
 	}
@@ -84,7 +88,9 @@ func (s *Solver) Close() {
 	if s.cmd != nil {
 		s.in.Close()
 		s.cmd.Process.Kill()
-		s.cmd.Wait()
+		if !s.dead {
+			s.cmd.Wait()
+		}
 		s.cmd = nil
 	}
 }
@@ -207,7 +213,14 @@ func (s *Solver) Check() SatResult {
 	res := Unknown
 	lines, err := s.sync()
 	if err != nil {
-		s.errors = append(s.errors, "solver died: "+err.Error())
+		werr := ""
+		if s.cmd != nil && !s.dead {
+			s.dead = true
+			if e := s.cmd.Wait(); e != nil {
+				werr = e.Error()
+			}
+		}
+		s.errors = append(s.errors, "solver died: "+err.Error()+" "+werr+" last output: "+strings.Join(lines, " / "))
 	}
 	sawErr := false
 	for _, line := range lines {
